@@ -511,7 +511,7 @@ def run(ctx: Ctx, rep: Report) -> None:
     rep.rule("C15-R2", "conversions iterate the raw result once, unfiltered and in order", floor=6)
     rep.rule("C15-R3", "every SNMP value type wraps a builtin python type", floor=7)
     rep.rule("C15-R5", "values are sliced out of immutable bytes: no bytearray / memoryview is handed to the x690 decoder (lazily decoded OCTET STRINGs would come out as bytearray)", floor=3)
-    rep.rule("C15-R4", "the wrapper hands its arguments to the raw client one-to-one: OIDs converted element by element (complete, in order), same-named options forwarded unchanged", floor=6)
+    rep.rule("C15-R4", "the wrapper hands its arguments to the raw client one-to-one: OIDs converted element by element (complete, in order), same-named options forwarded unchanged", floor=5)
     rep.assumptions += ["BulkResult (a plain dataclass of two dicts) is the documented container of bulkget and is accepted as such; its fields must be builtin"]
     wrapper = ctx.wrapper()
     client = ctx.client()
